@@ -119,10 +119,11 @@ def hpp_struct(ctx, L):
             'the flag-to-value gap is derived from member.alignment, which the model bumps to the block alignment for the first member '
             'of a block after a dynamic field: {u32 n; u8 x<@n>; u8* o; u64 b} would get a gap the wire format does not have; the gap '
             'must come from the alignment of the member\'s own type', osrc)
+    helper_dep = [m.func('_get_value_alignment')] if m.has_func('_get_value_alignment') else [None]
     L.check(gok, 'C08.gap-obligation', 'gen_member|optional-flag-to-value', f.site(opt[0]),
             'the struct is packed, so the wire gap between the 4-byte optional flag and a value of alignment 8 must be emitted '
             'as manual padding (value alignment - DISC_SIZE bytes when the value\'s own alignment exceeds DISC_SIZE): O{u8 a; u64* b} '
-            'puts b 4 bytes after has_b instead of 8', osrc)
+            'puts b 4 bytes after has_b instead of 8', osrc, deps=helper_dep)
     order_ok = osrc.rstrip().endswith('field = flag + field') or re.search(r"field = .*has_\{0\}.*\+ field$", osrc) is not None
     L.check(order_ok, 'C08.optional-flag', 'gen_member|flag-before-value', f.site(opt[0]), 'flag (and gap) precede the value', osrc)
     # member ladder: arrays `T name[size or 1]`, plain `T name`
@@ -315,7 +316,15 @@ def last_member_and_casts(ctx, L):
     gp = m.func('_CppSwapTranslator.translate_struct.gen_part')
     ps = ws(unparse(gp.node))
     calls = [c for c in gp.walk() if isinstance(c, ast.Call) and unparse(c.func) == 'gen_last_member']
-    if len(calls) != 1:
+    if not calls:
+        # normal form: the (nested, single-expression) helper is folded into gen_part - its `return cast<{0}*>(...)` templates
+        # carry the cast target as their first format argument
+        calls = [c for c in gp.walk() if isinstance(c, ast.Call) and isinstance(c.func, ast.Attribute) and c.func.attr == 'format'
+                 and isinstance(c.func.value, ast.Constant) and str(c.func.value.value).startswith('return cast<{0}*>(') and c.args]
+        targets = set(ws(unparse(c.args[0])) for c in calls)
+        if len(targets) != 1:
+            raise AnalysisError('gen_part: the cast target of the part end was not found')
+    elif len(calls) != 1:
         raise AnalysisError('gen_part: call of gen_last_member not found')
     target = ws(unparse(calls[0].args[0]))
     L.check(target != "'{0}::part{1}'.format(struct.name, part_number)", 'C09.cast-target', 'gen_part|cast<current part>', gp.site(calls[0]),
